@@ -73,6 +73,29 @@ CHECKS = {
         note='Descriptions are concrete (7-text corpus); depths from {None,1,2,3}, max<min excluded (documented unsupported). '
              'MasterConfig precedence for default directions is covered under C08/C15. The reference is the config-string '
              'channel of the same code, so a defect common to all channels is not visible here (C01/C06/C20 cover effects).'),
+    'C14': dict(
+        engine='S', category='other', design_ref='DESIGN.md §4 C14',
+        technique='CrossHair symbolic execution of real PLSSDesc / Tract operation histories (symbolic kinds, commit flags, '
+                  'Optional[bool] keywords), path tree exhausted; compared with a history reference model on a fresh object',
+        text='Histories of 2 operations (quick) and 3 (thorough, sharded by first kind) over parse / parse_tracts / preprocess / '
+             'config assignment / sort / filter-drop for PLSSDesc and parse(kw) / parse() / preprocess / config assignment for '
+             'Tract: after every commit=False step the snapshot of all public attributes (tracts, lots, aliquots, acreages, '
+             'flags and flag lines, settings, layout, pp_desc) is unchanged; the final snapshot equals a fresh object given the '
+             'accumulated config, the last committed parse and the de-duplicated later operations (no accumulation, committed '
+             'parse replaces).',
+        note='One concrete description and one tract description chosen to raise duplicate / nonsequential / acreage / trigger-word '
+             'flags. Quick fixes the second keyword to None. The reference model (props/c14_ref.py) is part of the trusted base.'),
+    'C15': dict(
+        engine='S', category='other', design_ref='DESIGN.md §4 C15',
+        technique='CrossHair symbolic execution of prior-activity sequences (symbolic operation kinds and probe index) through the '
+                  'real library, path tree exhausted; probe observables compared with the empty-history baseline',
+        text='For 14 probes (TRS strings incl. error / undefined / near-miss / empty, tract descriptions, PLSS descriptions incl. '
+             'missing directions) and every sequence of 1-2 (quick) / 3 (thorough) prior operations out of 9 kinds (other parses, '
+             'MasterConfig changed and restored, objects created under other defaults, TRS cache cleared / disabled / enabled / '
+             'pre-warmed, dicts and lists returned by trs_to_dict / to_dict / tracts_to_dict / tracts_to_list / list_trs mutated) '
+             'the probe result equals the empty-history result and MasterConfig is as before.',
+        note='Baseline is computed in the worker process before any operation; a fresh interpreter is used by the replay. '
+             'The private TRS.__CACHE is not written to directly (only through the public API and _clear_cache/_USE_CACHE).'),
 }
 
 NOT_YET = 'check not built yet in this round (see DESIGN.md §9 build order)'
